@@ -213,19 +213,28 @@ def r4_reader_all_directories(repo=None):
     r = Rule("C11.R4", "the reader consults every top-level directory of a channel")
     m = pyfront.mod("digital_rf_hdf5", repo)
     for q in ("DigitalRFReader.read", "DigitalRFReader.get_continuous_blocks", "DigitalRFReader.get_bounds"):
-        fn = m.fn(q)
+        fn = m.flat(q, keep=("_get_file_list", "_combine_blocks", "_read", "_get_bounds")).fn()
+
+        def resolved_iter(n):
+            it = n.iter
+            if isinstance(it, ast.Name):
+                defs = [x.value for x in pyfront.walk_no_nested(fn) if isinstance(x, ast.Assign) and len(x.targets) == 1
+                        and isinstance(x.targets[0], ast.Name) and x.targets[0].id == it.id]
+                if len(defs) == 1:
+                    return defs[0]
+            return it
         loops = [n for n in pyfront.walk_no_nested(fn) if isinstance(n, ast.For)
-                 and "top_level_dir_meta_list" in ast.unparse(n.iter)]
+                 and "top_level_dir_meta_list" in ast.unparse(resolved_iter(n))]
         if len(loops) != 1:
             r.violation(m.rel, q, "%d loops over top_level_dir_meta_list" % len(loops), "the query does not iterate over the "
                         "channel's top-level directories", line=fn.lineno)
             continue
         lp = loops[0]
-        plain = isinstance(lp.iter, (ast.Attribute,)) and not isinstance(lp.iter, ast.Subscript)
+        plain = isinstance(resolved_iter(lp), (ast.Attribute,)) and not isinstance(resolved_iter(lp), ast.Subscript)
         early = [x for x in ast.walk(lp) if isinstance(x, (ast.Break, ast.Return))]
         if early or not plain:
             x = early[0] if early else lp
-            r.violation(m.rel, q, ast.unparse(x)[:60] if early else "iterates over %s" % ast.unparse(lp.iter),
+            r.violation(m.rel, q, ast.unparse(x)[:60] if early else "iterates over %s" % ast.unparse(resolved_iter(lp)),
                         "the loop over top-level directories can stop early or skips directories: data of other sessions' "
                         "directories would be missing from the result", line=x.lineno)
         else:
@@ -239,14 +248,16 @@ def r4_reader_all_directories(repo=None):
     if len(outer) != 1:
         raise AnalysisError("%s: loop over self._top_level_dir_dict not found exactly once" % q)
     dvar = outer[0].ast.target.id
+    def lists_dir(e):
+        """a call self.<method>(dvar) - the per-directory channel listing, whatever it is called"""
+        return isinstance(e, ast.Call) and (pyfront.call_name(e) or "").startswith("self.") and len(e.args) == 1 \
+            and isinstance(e.args[0], ast.Name) and e.args[0].id == dvar and not e.keywords
     found_vars = set()
     for n in ast.walk(outer[0].ast):
-        if isinstance(n, ast.Assign) and isinstance(n.value, ast.Call) and pyfront.call_name(n.value) == "self._get_channels_in_dir" \
-                and isinstance(n.targets[0], ast.Name):
+        if isinstance(n, ast.Assign) and lists_dir(n.value) and isinstance(n.targets[0], ast.Name):
             found_vars.add(n.targets[0].id)
     inner = [n for n in heads if n is not outer[0] and outer[0].ast.lineno < n.ast.lineno <= outer[0].ast.end_lineno
-             and ("self._get_channels_in_dir(%s)" % dvar in ast.unparse(n.ast.iter)
-                  or (isinstance(n.ast.iter, ast.Name) and n.ast.iter.id in found_vars))]
+             and (lists_dir(n.ast.iter) or (isinstance(n.ast.iter, ast.Name) and n.ast.iter.id in found_vars))]
     if len(inner) != 1:
         raise AnalysisError("%s: loop over the channels found in a top-level directory not recognised" % q)
 
